@@ -4,17 +4,20 @@ import math
 from hypothesis import strategies as st
 
 from lib import gens, refgeo
-from lib.runner import Stage, Violation, hyp_drive, guarded
+from lib.runner import Stage, Violation, hyp_drive, guarded, HarnessError
 
 RULE = ("(point, resolution) pairs: points from a mixture (uniform sphere, log-scale polar caps, exact poles, the 62 "
         "dodecahedron frame points and their 1e-12..1e-1 rad neighbourhoods, antimeridian, +-360 wrapped longitudes in "
         "[-540,540], corner/edge huggers aimed with the library's own ring), resolutions 0..29 weighted to 0-2 and 26-29. "
         "Oracle: independent spherical point-in-ring test on cell_to_boundary(cell,{segments:8->64}) with tolerance "
         "T(k,r)=0.05/k^2+2e-3/k+1e-14/L(r) cell widths. Non-trivial = within 0.25 cell widths of an edge, or colatitude<10deg, "
-        "or within 1e-3 rad of a frame point, or |lon|>180; distinct by (lon,lat,res).")
+        "or within 1e-3 rad of a frame point, or |lon|>180; distinct by (lon,lat,res). Further stages: points around places where "
+        "lonlat_to_cell's own branches flip (coverage-directed, lib/boundary.py); a dense res-0 sweep along all 30 face edges "
+        "(2500/16000 positions x 14 offsets 1e-9..1e-3 rad) judged exactly by nearest face centre; 90 points just inside the "
+        "five edges of each generated cell (latitude-uniform and adversarial bases).")
 ASSUMPTIONS = ["the k=64 ring follows the true curved edge to 4.3e-5 cell widths (7.6x the worst deviation measured)",
                "points closer than that to an edge may legitimately be given to either cell (edge_ambiguous, counted)"]
-REQUIRED_CLASSES = {"nontrivial:near_edge": (None, 0.05), "nontrivial:polar": (None, 0.05), "nontrivial:frame": (None, 0.03)}
+REQUIRED_CLASSES = {"nontrivial:near_edge": ("judged_point", 0.05), "nontrivial:polar": ("judged_point", 0.05), "nontrivial:frame": ("judged_point", 0.03)}
 
 
 def _a5():
@@ -96,7 +99,7 @@ def judge(case, col):
     if refgeo.nearest_frame(p)[0] < 1e-3:
         nt.append("nontrivial:frame")
     col.case({"lon": case["lon"], "lat": case["lat"], "res": res}, nontrivial=bool(nt),
-             classes=cls + nt + [f"res{res:02d}"])
+             classes=["judged_point"] + cls + nt + [f"res{res:02d}"])
 
 
 def cases():
@@ -107,7 +110,7 @@ def cases():
                                      "hug": {"kind": kind, "i": i, "t": t, "f": 10.0 ** (-6 + 4.5 * u)}},
         gens.pts_base(), gens.resolutions(0, 29), st.sampled_from(["corner", "edge"]), st.integers(0, 4),
         st.floats(0.0, 1.0, allow_nan=False), st.floats(0.0, 1.0, allow_nan=False))
-    return st.one_of(plain, plain, hug)
+    return st.one_of(plain, plain, hug, gens.edge_scaled_cases(2, 29))
 
 
 def stage_hyp(ctx):
@@ -115,9 +118,143 @@ def stage_hyp(ctx):
     hyp_drive(ctx, cases(), judge, n)
 
 
+def stage_boundary(ctx):
+    """Points at log-scale distances from the places where lonlat_to_cell's own branches flip, plain and as
+    corner/edge huggers (lib/boundary.py)."""
+    from lib import boundary
+    anc = boundary.anchors(ctx, "cell", 150 if ctx.tier == "quick" else 800) + boundary.anchors(ctx, "proj", 60 if ctx.tier == "quick" else 300, per_type=2)
+    if not anc:
+        ctx.col.count("boundary_stage_skipped")
+        return
+    pts = boundary.anchor_points(anc)
+    plain = st.builds(lambda p, r: {"lon": p["lon"], "lat": p["lat"], "res": r, "cls": p["cls"]}, pts, gens.resolutions(0, 29))
+    hug = st.builds(
+        lambda p, r, kind, i, t, u: {"lon": p["lon"], "lat": p["lat"], "res": r, "cls": p["cls"],
+                                     "hug": {"kind": kind, "i": i, "t": t, "f": 10.0 ** (-6 + 4.5 * u)}},
+        pts, gens.resolutions(0, 29), st.sampled_from(["corner", "edge"]), st.integers(0, 4),
+        st.floats(0.0, 1.0, allow_nan=False), st.floats(0.0, 1.0, allow_nan=False))
+    hyp_drive(ctx, st.one_of(plain, hug), judge, 400 if ctx.tier == "quick" else 15000)
+
+
+# ---- dense sweep of the face-assignment boundaries (res 0), exact oracle ------------------------------------------
+_FACE = {}
+
+
+def _face_table():
+    """library face id -> index into refgeo.FACE_CENTRES (from the centres the library reports for its res-0 cells)."""
+    if not _FACE:
+        a5 = _a5()
+        from lib import refids
+        for f in range(12):
+            c = a5.cell_to_lonlat(refids.enc(0, f))
+            v = refgeo.lonlat_to_frame(c)
+            _FACE[f] = max(range(12), key=lambda i: refgeo._dot(v, refgeo.FACE_CENTRES[i]))
+        if len(set(_FACE.values())) != 12:
+            raise HarnessError("cannot match library faces to the reference frame")
+    return _FACE
+
+
+def judge_face(case, col=None):
+    """res 0: the face pentagons are bounded by great circles (bisectors of adjacent face centres), so the cell
+    containing p is exactly the face with the nearest centre; ties within 1e-9 rad may go either way."""
+    a5 = _a5()
+    from lib import refids
+    p = (case["lon"], case["lat"])
+    cell = guarded(a5.lonlat_to_cell, p, 0, kind="lonlat_to_cell_raised", case=case)
+    d = refids.dec(cell)
+    if d is None or d[0] != 0:
+        raise Violation("wrong_resolution", case, observed=hex(cell), expected="a res-0 cell")
+    got = _face_table()[d[1]]
+    v = refgeo.lonlat_to_frame(p)
+    dots = sorted(((refgeo._dot(v, c), i) for i, c in enumerate(refgeo.FACE_CENTRES)), reverse=True)
+    if got == dots[0][1]:
+        return 0.0
+    # angular distance of p to the bisector between the nearest face and the returned one
+    cg = refgeo.FACE_CENTRES[got]
+    cn = refgeo.FACE_CENTRES[dots[0][1]]
+    n = refgeo._norm(tuple(cn[i] - cg[i] for i in range(3)))
+    off = abs(math.asin(max(-1.0, min(1.0, refgeo._dot(v, n)))))
+    if off > 1e-9:
+        raise Violation("point_outside_returned_face", case, observed=f"{off:.3e} rad beyond the edge of face cell {hex(cell)}",
+                        expected="the face whose centre is nearest (ties within 1e-9 rad either way)")
+    return off
+
+
+def stage_faces(ctx):
+    from lib import gens as _g
+    N = 2500 if ctx.tier == "quick" else 16000
+    offsets = [s * d for d in (1e-9, 1e-7, 1e-6, 1e-5, 3e-5, 1e-4, 1e-3) for s in (1, -1)]
+    edges = _g._EDGES
+    n = 0
+    for e in range(len(edges))[ctx.shard::ctx.nshards]:
+        a, b = edges[e]
+        nrm = refgeo._norm(refgeo._cross(a, b))
+        # a different grid phase on every edge (symmetric defects sit at the same place on many edges)
+        phase = (ctx.seed * 0.6180339887498949 + e * 0.3819660112501051 + 0.137) % 1.0
+        for i in range(N):
+            base = refgeo.slerp_vec(a, b, (i + phase) / N)
+            for d in offsets:
+                v = refgeo._norm(tuple(base[k] + d * nrm[k] for k in range(3)))
+                lon, lat = refgeo.frame_to_lonlat(v)
+                judge_face({"lon": lon, "lat": lat, "res": 0, "exact_face": True})
+                n += 1
+    ctx.col.bulk(n, n, cls="face_edge_sweep_res0", sample={"lon": lon, "lat": lat, "res": 0, "exact_face": True})
+    ctx.col.notes.append(f"face sweep: {N} positions per edge x {len(offsets)} offsets (1e-9..1e-3 rad both sides)")
+
+
+# ---- many points just inside every edge of a cell ------------------------------------------------------------------
+
+def judge_edges(case, col):
+    a5 = _a5()
+    res = case["res"]
+    base = (case["lon"], case["lat"])
+    cell = guarded(a5.lonlat_to_cell, base, res, kind="lonlat_to_cell_raised", case=case)
+    ring = guarded(a5.cell_to_boundary, cell, {"segments": 32, "closed_ring": True}, kind="cell_to_boundary_raised", case=case)
+    centre = guarded(a5.cell_to_lonlat, cell, kind="cell_to_lonlat_raised", case=case)
+    L = refgeo.cell_width(res)
+    nv = (len(ring) - 1) // 32
+    pts = 0
+    for e in range(nv):
+        for s in (1, 2, 4, 8, 16, 24, 28, 30, 31):          # 3 %, 6 %, 12 %, 25 %, 50 % ... 97 % along the edge
+            q = ring[32 * e + s]
+            dist = refgeo.gc_dist(q, centre)
+            if dist <= 0:
+                continue
+            for depth in (0.004, 0.015):
+                p = refgeo.toward(q, centre, depth * L / dist)
+                sub = {"lon": p[0], "lat": p[1], "res": res, "cls": "edge_dense"}
+                got = guarded(a5.lonlat_to_cell, p, res, kind="lonlat_to_cell_raised", case=sub)
+                pts += 1
+                if got != cell:
+                    # p was built strictly inside `cell`; another answer is acceptable only if it contains p as well
+                    verdict, m = contains(p, got, res)
+                    if verdict == "out":
+                        raise Violation("point_outside_returned_cell", sub, observed=f"outside by {-m:.3g} cell widths (cell {hex(got)}; built {depth} widths inside {hex(cell)})",
+                                        expected="a cell containing the point")
+                    col.count("edge_dense_other_cell_also_contains")
+    col.count("edge_dense_points", pts)
+    colat = 90.0 - abs(case["lat"])
+    col.case({"lon": case["lon"], "lat": case["lat"], "res": res}, nontrivial=True,
+             classes=["edge_dense_cell", f"res{res:02d}"] + (["nontrivial:polar"] if colat < 10 else []))
+
+
+def stage_edges(ctx):
+    lat_uniform = st.builds(lambda lon, lat: {"lon": lon, "lat": lat, "cls": "lat_uniform"},
+                            st.floats(-180, 180, allow_nan=False), st.floats(-90, 90, allow_nan=False))
+    base = st.one_of(lat_uniform, lat_uniform, gens.pts_base())
+    strat = st.builds(lambda p, r: {"lon": p["lon"], "lat": p["lat"], "res": r, "edges": True}, base, gens.resolutions(2, 29))
+    hyp_drive(ctx, strat, judge_edges, 120 if ctx.tier == "quick" else 2500)
+
+
 def plan(tier):
-    return [Stage("hyp", 16, stage_hyp, cost=5)]
+    return [Stage("hyp", 16, stage_hyp, cost=5), Stage("boundary", 16, stage_boundary, cost=5),
+            Stage("faces", 15, stage_faces, cost=6), Stage("edges", 16, stage_edges, cost=6)]
 
 
 def replay(rec, col):
-    judge(rec["case"], col)
+    case = rec["case"]
+    if case.get("exact_face"):
+        return judge_face(case, col)
+    if case.get("edges"):
+        return judge_edges(case, col)
+    judge(case, col)
